@@ -1205,3 +1205,31 @@ package analysis
 //@   ensures forall c string :: old(c in dom(s.consumes)) ==> c in dom(s.consumes)
 //@   ensures forall c string :: old(c in dom(s.produces)) ==> c in dom(s.produces)
 //@   loop 1: modifies heap spec.Parameter, map s.allSchemas, map s.allOfs, map s.references.schemas, map s.references.responses, map s.references.parameters, map s.references.items, map s.references.headerItems, map s.references.parameterItems, map s.references.allRefs, map s.patterns.parameters, map s.patterns.headers, map s.patterns.items, map s.patterns.schemas, map s.patterns.allPatterns, map s.enums.parameters, map s.enums.headers, map s.enums.items, map s.enums.schemas, map s.enums.allEnums
+
+// wfOps: the operations index is exactly the operations of the document under the seven methods
+//@ fun docPaths(s *Spec) map[string]spec.PathItem = if s.spec == nil || s.spec.Paths == nil then nil else s.spec.Paths.Paths
+//@ fun wfOps(s *Spec) bool = opsWF(s) && (forall M string :: forall p string :: inOpsIdx(s, M, p) <==> (p in dom(docPaths(s)) && opAtM(docPaths(s)[p], M) != nil)) && (forall M string :: forall p string :: inOpsIdx(s, M, p) ==> s.operations[M][p] == opAtM(docPaths(s)[p], M))
+
+//@ func (s *Spec) initialize()
+//@   aspect ops
+//@   requires s != nil && s.spec != nil && idxMaps(s) && opsWF(s) && (forall M string :: !(M in dom(s.operations)))
+//@   modifies heap spec.Parameter, heap spec.PathItem, map s.operations, heap map[string]*spec.Operation, map s.consumes, map s.produces, map s.authSchemes, map s.allSchemas, map s.allOfs, map s.references.schemas, map s.references.responses, map s.references.parameters, map s.references.items, map s.references.headerItems, map s.references.parameterItems, map s.references.allRefs, map s.references.pathItems, map s.patterns.parameters, map s.patterns.headers, map s.patterns.items, map s.patterns.schemas, map s.patterns.allPatterns, map s.enums.parameters, map s.enums.headers, map s.enums.items, map s.enums.schemas, map s.enums.allEnums
+//@   ensures wfOps(s)
+//@   ensures forall i in 0..len(s.spec.Consumes) :: s.spec.Consumes[i] in dom(s.consumes)
+//@   ensures forall i in 0..len(s.spec.Produces) :: s.spec.Produces[i] in dom(s.produces)
+//@   loop 1: modifies map s.consumes
+//@   loop 1: invariant forall i in 0..idx :: s.spec.Consumes[i] in dom(s.consumes)
+//@   loop 2: modifies map s.produces
+//@   loop 2: invariant forall i in 0..idx :: s.spec.Produces[i] in dom(s.produces)
+//@   loop 3: modifies map s.authSchemes
+//@   loop 4: modifies map s.authSchemes
+//@   loop 5: modifies heap spec.Parameter, heap spec.PathItem, map s.operations, heap map[string]*spec.Operation, map s.consumes, map s.produces, map s.authSchemes, map s.allSchemas, map s.allOfs, map s.references.schemas, map s.references.responses, map s.references.parameters, map s.references.items, map s.references.headerItems, map s.references.parameterItems, map s.references.allRefs, map s.references.pathItems, map s.patterns.parameters, map s.patterns.headers, map s.patterns.items, map s.patterns.schemas, map s.patterns.allPatterns, map s.enums.parameters, map s.enums.headers, map s.enums.items, map s.enums.schemas, map s.enums.allEnums
+//@   loop 5: invariant opsWF(s)
+//@   loop 5: invariant forall p in seen :: p in dom(docPaths(s))
+//@   loop 5: invariant forall p in seen :: forall M string :: opAtM(docPaths(s)[p], M) != nil ==> inOpsIdx(s, M, p) && s.operations[M][p] == opAtM(docPaths(s)[p], M)
+//@   loop 5: invariant forall M string :: forall p string :: inOpsIdx(s, M, p) ==> p in seen && opAtM(docPaths(s)[p], M) != nil && s.operations[M][p] == opAtM(docPaths(s)[p], M)
+//@   loop 5: invariant (forall c string :: old(c in dom(s.consumes)) ==> c in dom(s.consumes)) && (forall i in 0..len(s.spec.Consumes) :: s.spec.Consumes[i] in dom(s.consumes)) && (forall i in 0..len(s.spec.Produces) :: s.spec.Produces[i] in dom(s.produces))
+//@   loop 6: modifies map s.allSchemas, map s.allOfs, map s.references.schemas, map s.references.responses, map s.references.parameters, map s.references.items, map s.references.headerItems, map s.references.parameterItems, map s.references.allRefs, map s.references.pathItems, map s.patterns.parameters, map s.patterns.headers, map s.patterns.items, map s.patterns.schemas, map s.patterns.allPatterns, map s.enums.parameters, map s.enums.headers, map s.enums.items, map s.enums.schemas, map s.enums.allEnums
+//@   loop 7: modifies map s.allSchemas, map s.allOfs, map s.references.schemas, map s.references.responses, map s.references.parameters, map s.references.items, map s.references.headerItems, map s.references.parameterItems, map s.references.allRefs, map s.references.pathItems, map s.patterns.parameters, map s.patterns.headers, map s.patterns.items, map s.patterns.schemas, map s.patterns.allPatterns, map s.enums.parameters, map s.enums.headers, map s.enums.items, map s.enums.schemas, map s.enums.allEnums
+//@   loop 8: modifies map s.allSchemas, map s.allOfs, map s.references.schemas, map s.references.responses, map s.references.parameters, map s.references.items, map s.references.headerItems, map s.references.parameterItems, map s.references.allRefs, map s.references.pathItems, map s.patterns.parameters, map s.patterns.headers, map s.patterns.items, map s.patterns.schemas, map s.patterns.allPatterns, map s.enums.parameters, map s.enums.headers, map s.enums.items, map s.enums.schemas, map s.enums.allEnums
+//@   loop 9: modifies map s.allSchemas, map s.allOfs, map s.references.schemas, map s.references.responses, map s.references.parameters, map s.references.items, map s.references.headerItems, map s.references.parameterItems, map s.references.allRefs, map s.references.pathItems, map s.patterns.parameters, map s.patterns.headers, map s.patterns.items, map s.patterns.schemas, map s.patterns.allPatterns, map s.enums.parameters, map s.enums.headers, map s.enums.items, map s.enums.schemas, map s.enums.allEnums
